@@ -207,6 +207,71 @@ def rule_R8_set_order(ctx, prj) -> bool:
     ctx.ok("R8", n2d.site(), f"{n} pattern trees: same language under both set orders; find_all: same matches on {m} (pattern, sequence) pairs")
     return True
 
+def rule_R9_exclusion_order(ctx, prj) -> None:
+    """the patterns that select the analysed files, from configuration file to PathSpec, under both set orders"""
+    from ..absint import MiniInterp, PyRaise, Sym, Unknown
+    from ..fsmodel import VFS, PathV, fs_hook
+    ctx.rule("R9", "which files are analysed does not depend on set iteration order: Configuration.load (the YAML parser replaced by the "
+                   "mapping it would return for a file with two exclusions and two re-including negations), a second load, and "
+                   "generate_exclude_spec interpreted twice, the second time with every set iterated in the opposite order, hand "
+                   "PathSpec.from_lines the same pattern list (gitignore: the last matching pattern wins, so order is content)", floor=0)
+    written = ["generated/*", "!generated/keep.py", "vendor/*", "!vendor/own.py", "*.min.js"]
+    gitignore = "build/\n!build/keep.py\n"
+    load = prj.func("codelimit.common.Configuration:Configuration.load")
+    ges = prj.func("codelimit.common.Scanner:generate_exclude_spec")
+    seen = []
+    try:
+        for rev in (False, True):
+            vfs = VFS({"/w": (["proj"], []), "/w/proj": ([], [".codelimit.yml", ".gitignore", "a.py"])}, "/w/proj")
+            vfs.texts["/w/proj/.gitignore"] = gitignore
+            fs = fs_hook(vfs)
+            lines = []
+
+            def hook(it, kind, f, args, kwargs, node, cur, fs=fs, lines=lines):
+                r = fs(it, kind, f, args, kwargs, node, cur)
+                if r is not NotImplemented:
+                    return r
+                if kind == "call" and isinstance(f, tuple) and f and f[0] == "external":
+                    name = f[1].replace(":", ".")
+                    base = name.split(".")[-1]
+                    if name.split(".")[0] == "yaml" and base in ("load", "safe_load", "full_load"):
+                        return {"exclude": list(written), "verbose": False}
+                    if base == "from_lines":
+                        got = args[-1] if args else kwargs.get("lines")
+                        lines.append([x for x in it.iterate(got)])
+                        return Sym("spec")
+                    if name.split(".")[0] == "logging":
+                        return None
+                return NotImplemented
+            it = MiniInterp(prj, hook, max_steps=100000)
+            it.reverse_sets = rev
+            it.call(load, [PathV("/w/proj")], {}, T_class(load))
+            it.call(ges, [PathV("/w/proj")], {})
+            it.call(load, [PathV("/w/proj")], {}, T_class(load))
+            it.call(ges, [PathV("/w/proj")], {})
+            if len(lines) != 2 or not all(isinstance(x, str) for l in lines for x in l):
+                raise Unknown("generate_exclude_spec does not hand a list of pattern strings to PathSpec.from_lines")
+            seen.append(lines)
+    except (Unknown, PyRaise) as e:
+        ctx.info(f"R9: configuration loading / exclusion spec not evaluable ({type(e).__name__}: {e}); not judged")
+        return
+    a, b = seen
+    for i, (x, y) in enumerate(zip(a, b)):
+        if x != y:
+            ours_x, ours_y = [p for p in x if p in written], [p for p in y if p in written]
+            ctx.viol("R9", "Configuration.load/set-order", load.site(),
+                     f"after {'one load' if i == 0 else 'a second load'} of a configuration that excludes {written}, PathSpec receives these patterns in the order "
+                     f"{ours_x} and, with sets iterated in the opposite order, {ours_y}: with a negation the last matching pattern wins, so which files are "
+                     f"analysed depends on set iteration order (PYTHONHASHSEED)")
+            return
+    ctx.ok("R9", load.site(), f"configuration ({len(written)} patterns, two negations) + .gitignore: PathSpec receives the same {len(a[0])} / {len(a[1])} patterns in the same order under both set orders")
+
+
+def T_class(fi):
+    from ..absint import T
+    return T("class", fi.cls) if fi.is_classmethod() else None
+
+
 # ----------------------------------------------------------------------------
 # R2 / R3
 # ----------------------------------------------------------------------------
@@ -669,3 +734,4 @@ def run(ctx, prj: Project):
     rule_R4(ctx, prj, fns)
     rule_R5(ctx, prj)
     rule_R6(ctx, prj)
+    rule_R9_exclusion_order(ctx, prj)
